@@ -379,11 +379,23 @@ def parse_isgraph(n, src):
     return {"kind": "notIsgraph", "idx": "i32"}
 
 
+CMP_NEG = {"lt": "ge", "le": "gt", "gt": "le", "ge": "lt", "eq": "ne", "ne": "eq"}
+
+
 def parse_atom(n, src, env):
     n = strip_parens(n)
     g = parse_isgraph(n, src)
     if g:
         return g
+    if n.get("kind") == "UnaryOperator" and n.get("opcode") == "!":
+        # !(val <op> k)  ==  val <negated op> k   (integer comparison types only: no NaN)
+        (inner,) = kids(n)
+        inner = strip_parens(inner)
+        if inner.get("kind") == "BinaryOperator" and inner.get("opcode") in CMP_NAMES:
+            a = parse_atom(inner, src, env)
+            if a["kind"] == "cmp" and not a["cty"].startswith("f"):
+                return {"kind": "cmp", "op": CMP_NEG[a["op"]], "cty": a["cty"], "k": a["k"]}
+        fail("unsupported negated guard condition", n)
     if n.get("kind") == "BinaryOperator" and n.get("opcode") in CMP_NAMES:
         a, b = kids(n)
         op = n["opcode"]
@@ -747,6 +759,423 @@ def extract_convint(repo):
     return {"functions": fns, "dispatch": disp, "type_int": type_int, "type_uint": type_uint}
 
 
+# --------------------------------------------------------------------------------------- type registry (C06)
+
+TYPES_C = "mptcore/types/type_traits.c"
+
+
+def walk(n):
+    yield n
+    for c in n.get("inner", []):
+        if isinstance(c, dict):
+            yield from walk(c)
+
+
+def var_decl(repo, relpath, name):
+    found = [d for d in clang_ast(repo, relpath, name) if d.get("kind") == "VarDecl" and d.get("name") == name]
+    if len(found) != 1:
+        fail("expected exactly one variable %s in %s, found %d" % (name, relpath, len(found)))
+    return found[0]
+
+
+def unwrap(n):
+    while n.get("kind") in ("ImplicitCastExpr", "CStyleCastExpr", "ParenExpr", "ConstantExpr"):
+        (n,) = kids(n)
+    return n
+
+
+def ctype_name(tnode):
+    toks = [t for t in tnode.get("qualType").replace("*", " * ").split() if t not in ("const", "volatile", "restrict")]
+    return " ".join(toks).replace(" * *", " **").replace("* *", "**")
+
+
+def sizeof_any(tnode, node=None):
+    """LP64 size of arithmetic, pointer and the few record types that occur in sizeof expressions of type_traits.c"""
+    q = ctype_name(tnode)
+    if q.endswith("*"):
+        return 8
+    if q in ("struct mpt_type_traits", "struct mpt_named_traits"):
+        return 24       # two pointers + size_t / two pointers + type id; printed by `t abi` of harness/drv_types.c
+    return sizeof(tnode, node)
+
+
+def parse_size_table(repo, name, env):
+    """`{ sizeof(T), id }` initialisers -> [(id, C type name, width of the size field in bits)]"""
+    vd = var_decl(repo, TYPES_C, name)
+    (init,) = [c for c in kids(vd) if c.get("kind") == "InitListExpr"]
+    rows = []
+    for row in kids(init):
+        if row.get("kind") != "InitListExpr" or len(kids(row)) != 2:
+            fail("%s: row is not { size, type }" % name, row)
+        sz, ty = kids(row)
+        if sz.get("kind") != "ImplicitCastExpr" or sz.get("castKind") != "IntegralCast":
+            fail("%s: size field without integral conversion" % name, sz)
+        width = CTYPES[canon(sz["type"], sz)][1]
+        e = unwrap(sz)
+        if e.get("kind") != "UnaryExprOrTypeTraitExpr" or e.get("name") != "sizeof" or "argType" not in e:
+            fail("%s: size is not sizeof(type)" % name, e)
+        idv, _ = const_eval(ty, env)
+        rows.append((idv, ctype_name(e["argType"]), width))
+    ids = [r[0] for r in rows]
+    if len(set(ids)) != len(ids):
+        fail("%s: duplicate id" % name, vd)
+    return rows
+
+
+def parse_name_table(repo, name, env):
+    vd = var_decl(repo, TYPES_C, name)
+    (init,) = [c for c in kids(vd) if c.get("kind") == "InitListExpr"]
+    rows = []
+    for row in kids(init):
+        if row.get("kind") != "InitListExpr" or len(kids(row)) != 2:
+            fail("%s: row is not { name, type }" % name, row)
+        nm, ty = kids(row)
+        lit = unwrap(nm)
+        if lit.get("kind") != "StringLiteral":
+            fail("%s: name is not a string literal" % name, nm)
+        text = json.loads(lit["value"])
+        if not all(32 < ord(ch) < 127 for ch in text) or '"' in text or "\\" in text:
+            fail("%s: unexpected characters in name %r" % (name, text), nm)
+        idv, _ = const_eval(ty, env)
+        rows.append((text, idv))
+    return rows
+
+
+def const_var(repo, name, env):
+    vd = var_decl(repo, TYPES_C, name)
+    inits = [c for c in kids(vd)]
+    if len(inits) != 1:
+        fail("%s: no initialiser" % name, vd)
+    v, _ = const_eval(inits[0], env)
+    return v
+
+
+def chunk_size(repo, name):
+    rec = [d for d in clang_ast(repo, TYPES_C, name) if d.get("kind") == "RecordDecl" and d.get("name") == name and d.get("completeDefinition")]
+    if len(rec) != 1:
+        fail("expected one definition of struct %s" % name)
+    for f in kids(rec[0]):
+        if f.get("kind") == "FieldDecl" and f.get("name") == "traits":
+            q = f["type"]["qualType"]
+            if q.endswith("]") and "[" in q:
+                return int(q[q.rindex("[") + 1:-1])
+    fail("struct %s has no array member `traits`" % name)
+
+
+def refs_var(n, name):
+    n = unwrap(n)
+    return n.get("kind") == "DeclRefExpr" and n.get("referencedDecl", {}).get("name") == name
+
+
+def memcpy_sizes(fn, src_name):
+    """size arguments of `memcpy(.., &src_name, size)` calls in fn"""
+    out = []
+    for n in walk(fn):
+        if n.get("kind") == "CallExpr":
+            ks = kids(n)
+            if ks and mentions(ks[0], "memcpy") and len(ks) == 4 and mentions(ks[2], src_name):
+                e = unwrap(ks[3])
+                if e.get("kind") != "UnaryExprOrTypeTraitExpr" or e.get("name") != "sizeof":
+                    fail("memcpy size is not a sizeof expression", n)
+                if "argType" in e:
+                    out.append(sizeof_any(e["argType"], e))
+                else:
+                    (c,) = kids(e)
+                    out.append(sizeof_any(strip_parens(c)["type"], e))
+    return out
+
+
+def comparisons(fn, var, env, consts):
+    """[(op, value)] of every comparison `var <op> constant` in fn"""
+    out = []
+    for n in walk(fn):
+        if n.get("kind") == "BinaryOperator" and n.get("opcode") in CMP_NAMES:
+            a, b = kids(n)
+            op = n["opcode"]
+            if refs_var(b, var) and not mentions(a, var):
+                a, b, op = b, a, CMP_FLIP[op]        # `K <op> var`
+            if refs_var(a, var) and not mentions(b, var):
+                try:
+                    v = eval_with_consts(b, env, consts)
+                except TranslateError:
+                    continue
+                out.append((op, v))
+    return out
+
+
+def eval_with_consts(n, env, consts):
+    """const_eval that also knows the file's `static const int` variables"""
+    u = unwrap(n)
+    if u.get("kind") == "DeclRefExpr" and u.get("referencedDecl", {}).get("name") in consts:
+        return consts[u["referencedDecl"]["name"]]
+    if u.get("kind") == "BinaryOperator" and u.get("opcode") in ("+", "-"):
+        a, b = kids(u)
+        va, vb = eval_with_consts(a, env, consts), eval_with_consts(b, env, consts)
+        return va + vb if u["opcode"] == "+" else va - vb
+    v, _ = const_eval(n, env)
+    return v
+
+
+def assigned_consts(fn, var, env, consts):
+    """values of `var = constant` assignments and initialisers in fn"""
+    out = []
+    for n in walk(fn):
+        if n.get("kind") == "BinaryOperator" and n.get("opcode") == "=":
+            a, b = kids(n)
+            if refs_var(a, var):
+                try:
+                    out.append(eval_with_consts(b, env, consts))
+                except TranslateError:
+                    pass
+        if n.get("kind") == "VarDecl" and n.get("name") == var and kids(n):
+            try:
+                out.append(eval_with_consts(kids(n)[0], env, consts))
+            except TranslateError:
+                pass
+    return out
+
+
+def limit_of(cmps, strict_op, loose_op, delta, what):
+    """a limit test written either as `x <strict_op> K` or `x <loose_op> K`: the K of the strict form
+    (delta = what to add to the K of the loose form)"""
+    vals = [v for op, v in cmps if op == strict_op] + [v + delta for op, v in cmps if op == loose_op]
+    return one(vals, what)
+
+
+def one(values, what):
+    vs = sorted(set(values))
+    if len(vs) != 1:
+        fail("%s: expected exactly one value, found %r" % (what, vs))
+    return vs[0]
+
+
+def range_of_cond(cond, env):
+    """`!type`, `type < K`, `type >= A && type <[=] B` -> inclusive (lo, hi)"""
+    c = strip_parens(cond)
+    if c.get("kind") == "UnaryOperator" and c.get("opcode") == "!" and is_ref(kids(c)[0], "type"):
+        return (0, 0)
+    if c.get("kind") == "BinaryOperator" and c.get("opcode") in ("<", "<=") and refs_var(kids(c)[0], "type"):
+        v, _ = const_eval(kids(c)[1], env)
+        return (0, v - 1 if c["opcode"] == "<" else v)
+    if c.get("kind") == "BinaryOperator" and c.get("opcode") == "&&":
+        a, b = [strip_parens(x) for x in kids(c)]
+        if a.get("kind") == "BinaryOperator" and a.get("opcode") == ">=" and refs_var(kids(a)[0], "type") and \
+                b.get("kind") == "BinaryOperator" and b.get("opcode") in ("<", "<=") and refs_var(kids(b)[0], "type"):
+            lo, _ = const_eval(kids(a)[1], env)
+            hi, _ = const_eval(kids(b)[1], env)
+            return (lo, hi - 1 if b["opcode"] == "<" else hi)
+    fail("unsupported range test in mpt_type_traits", cond)
+
+
+KIND_BY_REF = [("core_types", "core"), ("scalar_types", "scalar"), ("iovec_types", "vector"),
+               ("mpt_interface_traits", "interface"), ("dynamic_types", "dynamic"), ("mpt_metatype_traits", "meta")]
+
+
+def parse_traits_dispatch(repo, env):
+    """mpt_type_traits: the ordered range tests and what each selects"""
+    fn = function_def(repo, TYPES_C, "mpt_type_traits")
+    (body,) = [c for c in kids(fn) if c.get("kind") == "CompoundStmt"]
+    out, statics, generic_base = [], [], None
+    for st in kids(body):
+        k = st.get("kind")
+        if k == "DeclStmt":
+            continue
+        if k == "IfStmt":
+            cond, then = kids(st)[0], kids(st)[1]
+            if len(kids(st)) != 2:
+                fail("mpt_type_traits: if with else", st)
+            lo, hi = range_of_cond(cond, env)
+            if (lo, hi) == (0, 0):
+                out.append(("null", 0, 0))
+                continue
+            kinds = [kind for ref, kind in KIND_BY_REF if mentions(then, ref)]
+            if len(kinds) != 1:
+                fail("mpt_type_traits: cannot tell what the range [%d,%d] selects" % (lo, hi), st)
+            out.append((kinds[0], lo, hi))
+        elif k == "SwitchStmt":
+            sk = kids(st)
+            if not is_ref(sk[0], "type"):
+                fail("mpt_type_traits: switch on something else", st)
+            for it in flatten_switch(sk[1]):
+                if it[0] == "case":
+                    v, _ = const_eval(it[1], env)
+                    statics.append(v)
+            out.append(("static", min(statics), max(statics)))
+        elif k == "CompoundAssignOperator" and st.get("opcode") == "-=" and refs_var(kids(st)[0], "type"):
+            generic_base, _ = const_eval(kids(st)[1], env)
+        elif k in ("BinaryOperator", "WhileStmt", "ReturnStmt"):
+            continue      # the generic chunk walk after `type -= _TypeValueAdd`
+        else:
+            fail("mpt_type_traits: statement outside the grammar", st)
+    if generic_base is None:
+        fail("mpt_type_traits: generic base not found")
+    return out, sorted(statics), generic_base
+
+
+def extract_types(repo):
+    env = enum_constants(repo, TYPES_C)
+    consts = {"TypeInterfaceSize": const_var(repo, "TypeInterfaceSize", env),
+              "TypeDynamicSize": const_var(repo, "TypeDynamicSize", env)}
+    data = {"env": {k: v for k, v in env.items() if k.startswith("MPT_Type") or k.startswith("MPT__Type")}}
+    data["core_sizes"] = parse_size_table(repo, "core_sizes", env)
+    data["scalar_sizes"] = parse_size_table(repo, "scalar_sizes", env)
+    data["core_interfaces"] = parse_name_table(repo, "core_interfaces", env)
+    data["consts"] = consts
+    data["meta_chunk"] = chunk_size(repo, "named_traits_chunk")
+    data["generic_chunk"] = chunk_size(repo, "generic_traits_chunk")
+    # pointer_traits = { 0, 0, sizeof(void *) }
+    pt = var_decl(repo, TYPES_C, "pointer_traits")
+    (init,) = [c for c in kids(pt) if c.get("kind") == "InitListExpr"]
+    vals = []
+    for c in kids(init):
+        e = unwrap(c)
+        if e.get("kind") == "UnaryExprOrTypeTraitExpr":
+            vals.append(sizeof_any(e["argType"], e))
+        else:
+            v, _ = const_eval(e, env)
+            vals.append(v)
+    if len(vals) != 3 or vals[0] != 0 or vals[1] != 0:
+        fail("pointer_traits is not { 0, 0, size }", pt)
+    data["pointer_size"] = vals[2]
+    data["traits_record"] = sizeof_any({"qualType": "struct mpt_type_traits"})
+    # how much of pointer_traits each constructor copies into a new named entry
+    copies = {}
+    for fname in ("_interfaces_init", "_meta_init", "mpt_type_metatype_add", "mpt_type_interface_add"):
+        fn = function_def(repo, TYPES_C, fname)
+        copies[fname] = one(memcpy_sizes(fn, "pointer_traits"), fname + ": memcpy of pointer_traits")
+    data["copies"] = copies
+    fn = function_def(repo, TYPES_C, "_interfaces_init")
+    data["interface_start"] = one(assigned_consts(fn, "interface_pos", env, consts), "_interfaces_init: interface_pos")
+    fn = function_def(repo, TYPES_C, "_meta_init")
+    types = [eval_with_consts(kids(n)[1], env, consts) for n in walk(fn)
+             if n.get("kind") == "BinaryOperator" and n.get("opcode") == "=" and
+             any(x.get("kind") == "MemberExpr" and x.get("name") == "type" for x in walk(kids(n)[0]))]
+    data["meta_builtin_id"] = one(types, "_meta_init: type of the built-in entry")
+    names = [json.loads(unwrap(kids(n)[1])["value"]) for n in walk(fn)
+             if n.get("kind") == "BinaryOperator" and n.get("opcode") == "=" and
+             any(x.get("kind") == "MemberExpr" and x.get("name") == "name" for x in walk(kids(n)[0])) and
+             unwrap(kids(n)[1]).get("kind") == "StringLiteral"]
+    data["meta_builtin_name"] = one(names, "_meta_init: name of the built-in entry")
+    # add functions
+    fn = function_def(repo, TYPES_C, "mpt_type_add")
+    data["generic_base"] = one(assigned_consts(fn, "pos", env, consts), "mpt_type_add: pos")
+    data["generic_max"] = limit_of(comparisons(fn, "pos", env, consts), ">", ">=", -1, "mpt_type_add: pos > max")
+    fn = function_def(repo, TYPES_C, "mpt_type_metatype_add")
+    data["meta_base"] = one(assigned_consts(fn, "pos", env, consts), "mpt_type_metatype_add: pos")
+    data["meta_max"] = limit_of(comparisons(fn, "pos", env, consts), ">", ">=", -1, "mpt_type_metatype_add: pos > max")
+    minlen = []
+    for fname in ("mpt_type_metatype_add", "mpt_type_interface_add"):
+        f2 = function_def(repo, TYPES_C, fname)
+        for n in walk(f2):
+            if n.get("kind") == "BinaryOperator" and n.get("opcode") == "<":
+                a, b = kids(n)
+                ua = unwrap(a)
+                if ua.get("kind") == "UnaryOperator" and ua.get("opcode") == "++" and ua.get("isPostfix") and mentions(ua, "nlen"):
+                    v, _ = const_eval(b, env)
+                    minlen.append((fname, v))
+    if sorted(f for f, _ in minlen) != ["mpt_type_interface_add", "mpt_type_metatype_add"]:
+        fail("name length test `nlen++ < K` not found in both add functions")
+    data["min_name"] = dict(minlen)
+    fn = function_def(repo, TYPES_C, "mpt_type_interface_add")
+    data["interface_cap"] = limit_of(comparisons(fn, "interface_pos", env, consts), ">=", ">", 1, "mpt_type_interface_add: capacity")
+    adds = [eval_with_consts(kids(unwrap_plus)[0], env, consts) for unwrap_plus in
+            [unwrap(n) for n in walk(fn) if n.get("kind") == "BinaryOperator" and n.get("opcode") == "+" and mentions(n, "interface_pos")]
+            if refs_var(kids(unwrap_plus)[1], "interface_pos")]
+    data["interface_base"] = one(adds, "mpt_type_interface_add: base + interface_pos")
+    fn = function_def(repo, TYPES_C, "mpt_type_basic_add")
+    data["dynamic_cap"] = limit_of(comparisons(fn, "dynamic_pos", env, consts), "<", "<=", 1, "mpt_type_basic_add: capacity")
+    adds = []
+    for n in walk(fn):
+        if n.get("kind") == "BinaryOperator" and n.get("opcode") == "+" and mentions(n, "dynamic_pos"):
+            a, b = kids(n)
+            if mentions(b, "dynamic_pos") and not mentions(a, "dynamic_pos"):
+                adds.append(eval_with_consts(a, env, consts))
+    data["dynamic_base"] = one(adds, "mpt_type_basic_add: base + dynamic_pos")
+    data["dispatch"], data["statics"], data["dispatch_generic_base"] = parse_traits_dispatch(repo, env)
+    # named lookups: range tests of mpt_interface_traits / mpt_metatype_traits
+    for fname, key in (("mpt_interface_traits", "interface_lookup"), ("mpt_metatype_traits", "meta_lookup")):
+        fn = function_def(repo, TYPES_C, fname)
+        cmps = comparisons(fn, "type", env, consts)
+        hi = one([v for op, v in cmps if op == ">"], fname + ": upper limit")
+        lo = one([v for op, v in cmps if op == "<"], fname + ": lower limit")
+        data[key] = (lo, hi)
+    data["type_int"] = parse_type_int(repo, "mpt_type_int")
+    data["type_uint"] = parse_type_int(repo, "mpt_type_uint")
+    # consistency of the interface table with its slot index (slot i holds id base + i)
+    for i, (nm, idv) in enumerate(data["core_interfaces"]):
+        if idv != data["interface_base"] + i:
+            fail("core_interfaces[%d] (%s) has id %d, its slot is %d" % (i, nm, idv, data["interface_base"] + i))
+    return data
+
+
+def byte_list(s):
+    """a C string literal as a Lean list of byte values"""
+    return "[" + ", ".join(str(b) for b in s.encode("latin-1")) + "]"
+
+
+def emit_typeids(data):
+    L = ["/- GENERATED by translate/cextract.py from mptcore/types.h (enum MPT_Types) -- rewritten on every run. Data only. -/",
+         "namespace Mpt.Generated.TypeId", ""]
+    for k in sorted(data["env"], key=lambda k: (data["env"][k], k)):
+        nm = k[len("MPT_"):]            # `MPT__TypeScalarBase` -> `_TypeScalarBase`, `MPT_TypeValue` -> `TypeValue`
+        L.append("def %s : Nat := %d" % (nm, data["env"][k]))
+    L.append("")
+    L.append("/-- every enumerator of `enum MPT_Types` -/")
+    L.append("def all : List (String × Nat) := [%s]" % ", ".join(
+        '("%s", %d)' % (k[len("MPT_"):], data["env"][k]) for k in sorted(data["env"], key=lambda k: (data["env"][k], k))))
+    L += ["", "end Mpt.Generated.TypeId", ""]
+    return "\n".join(L)
+
+
+def emit_typetables(data):
+    L = ["/- GENERATED by translate/cextract.py from mptcore/types/type_traits.c -- rewritten on every run. Data only. -/",
+         "namespace Mpt.Generated.TypeTab", ""]
+    L.append("/-- `core_sizes`, `scalar_sizes`: (type id, C type whose sizeof is stored, width in bits of the size field) -/")
+    for key in ("core_sizes", "scalar_sizes"):
+        L.append("def %s : List (Nat × String × Nat) := [%s]" % (
+            key.replace("_s", "S"), ", ".join('(%d, "%s", %d)' % r for r in data[key])))
+    L.append("/-- `core_interfaces`: (name as bytes, id); slot i holds id `interfaceBase + i` (checked by the translator) -/")
+    L.append("def coreInterfaces : List (List Nat × Nat) := [%s]" % ", ".join(
+        "(%s, %d) /- %s -/" % (byte_list(r[0]), r[1], r[0]) for r in data["core_interfaces"]))
+    L.append("def interfaceCap : Nat := %d      -- `interface_pos >= TypeInterfaceSize`" % data["interface_cap"])
+    L.append("def interfaceBase : Nat := %d     -- id = base + interface_pos" % data["interface_base"])
+    L.append("def interfaceStart : Nat := %d    -- interface_pos after `_interfaces_init`" % data["interface_start"])
+    L.append("def dynamicCap : Nat := %d" % data["dynamic_cap"])
+    L.append("def dynamicBase : Nat := %d" % data["dynamic_base"])
+    L.append("def metaBase : Nat := %d" % data["meta_base"])
+    L.append("def metaMax : Nat := %d" % data["meta_max"])
+    L.append("def metaChunk : Nat := %d" % data["meta_chunk"])
+    L.append("def metaBuiltin : List Nat × Nat := (%s, %d) /- %s -/" % (byte_list(data["meta_builtin_name"]), data["meta_builtin_id"], data["meta_builtin_name"]))
+    L.append("def genericBase : Nat := %d" % data["generic_base"])
+    L.append("def genericMax : Nat := %d" % data["generic_max"])
+    L.append("def genericChunk : Nat := %d" % data["generic_chunk"])
+    L.append("def minNameLenIface : Nat := %d   -- `nlen++ < K` of mpt_type_interface_add" % data["min_name"]["mpt_type_interface_add"])
+    L.append("def minNameLenMeta : Nat := %d    -- `nlen++ < K` of mpt_type_metatype_add" % data["min_name"]["mpt_type_metatype_add"])
+    L.append("def pointerSize : Nat := %d       -- pointer_traits.size" % data["pointer_size"])
+    L.append("def traitsRecord : Nat := %d      -- sizeof(struct type_traits)" % data["traits_record"])
+    L.append("/-- bytes of `pointer_traits` copied into a new named entry, per constructor -/")
+    L.append("def copies : List (String × Nat) := [%s]" % ", ".join('("%s", %d)' % kv for kv in sorted(data["copies"].items())))
+    L.append("/-- `mpt_type_traits`: range tests in program order (kind, lo, hi inclusive) -/")
+    L.append("def dispatch : List (String × Nat × Nat) := [%s]" % ", ".join('("%s", %d, %d)' % r for r in data["dispatch"]))
+    L.append("def statics : List Nat := [%s]" % ", ".join(str(v) for v in data["statics"]))
+    L.append("def dispatchGenericBase : Nat := %d" % data["dispatch_generic_base"])
+    L.append("def interfaceLookup : Nat × Nat := (%d, %d)" % data["interface_lookup"])
+    L.append("def metaLookup : Nat × Nat := (%d, %d)" % data["meta_lookup"])
+    L.append("def typeInt : List (Nat × Nat) := [%s]" % ", ".join("(%d, %d)" % kv for kv in sorted(data["type_int"].items())))
+    L.append("def typeUint : List (Nat × Nat) := [%s]" % ", ".join("(%d, %d)" % kv for kv in sorted(data["type_uint"].items())))
+    L += ["", "end Mpt.Generated.TypeTab", ""]
+    return "\n".join(L)
+
+
+def generate_types(repo, lean_dir):
+    data = extract_types(repo)
+    p1 = os.path.join(lean_dir, "MptModel", "Generated", "TypeIds.lean")
+    p2 = os.path.join(lean_dir, "MptModel", "Generated", "TypeTables.lean")
+    c1 = write_if_changed(p1, emit_typeids(data))
+    c2 = write_if_changed(p2, emit_typetables(data))
+    return (p1, p2), c1 or c2
+
+
 # --------------------------------------------------------------------------------------- Lean emission
 
 def lean_int(v):
@@ -838,8 +1267,17 @@ def main(argv):
                 print(generate_convint(repo, os.path.join(here, "lean")))
             else:
                 sys.stdout.write(emit_convint(data))
+        elif what == "types":
+            data = extract_types(repo)
+            if "--json" in argv:
+                print(json.dumps(data, indent=1))
+            elif "--write" in argv:
+                print(generate_types(repo, os.path.join(here, "lean")))
+            else:
+                sys.stdout.write(emit_typeids(data))
+                sys.stdout.write(emit_typetables(data))
         else:
-            print("usage: cextract.py convint|typeids|typetables [--json|--write]")
+            print("usage: cextract.py convint|types [--json|--write]")
             return 2
     except TranslateError as e:
         print("TRANSLATE-ERROR: %s" % e, file=sys.stderr)
